@@ -16,6 +16,19 @@ class TooLong(BaseException):
     pass
 
 
+class Host(object):
+    """one class for all host objects: their bound methods share the function and differ in the receiver"""
+
+    def __init__(self, fn):
+        self.fn = fn
+
+    def handle(self, *args, **kw):
+        return self.fn(*args, **kw)
+
+
+CTXKEYS = ['c', 'self', 'name', 'callback', 'fn', 'event', 'args', 'ctx']     # a context may use any key
+
+
 class Recorder(object):
     """Runs one behaviour on a real emitter and records every public call, every callback
     entry/exit.  Purely observational: nothing of the emitter's internals is read."""
@@ -34,7 +47,7 @@ class Recorder(object):
         if c not in self.cbs:
             def callback(*args, **kw):
                 self.log({'e': 'call', 'k': '', 'n': '', 'cb': c, 'x': list(args),
-                          'c': [kw['c']] if 'c' in kw else []})
+                          'c': list(kw.values())[:1]})
                 self.depth += 1
                 try:
                     if self.depth <= self.max_depth:
@@ -45,10 +58,7 @@ class Recorder(object):
                 self.log({'e': 'cbret', 'k': '', 'n': '', 'cb': 0, 'x': [], 'c': []})
             if self.cbkind == 'method':
                 # a host object's method: every access builds a new bound-method object, equal to the others
-                class Host(object):
-                    def handle(self, *args, **kw):
-                        return callback(*args, **kw)
-                self.cbs[c] = Host()
+                self.cbs[c] = Host(callback)
             else:
                 self.cbs[c] = callback
         return self.cbs[c].handle if self.cbkind == 'method' else self.cbs[c]
@@ -62,10 +72,22 @@ class Recorder(object):
         k, n = o['k'], o['n']
         self.log({'e': 'op', 'k': k, 'n': n, 'cb': o['cb'], 'x': list(o['x']), 'c': []})
         em = self.em
+        try:
+            self.apply(em, k, n, o)
+        except TooLong:
+            raise
+        except (RecursionError, core.MachineryError):
+            raise
+        except Exception as e:      # no operation of the emitter fails, whatever the callbacks and contexts are
+            self.log({'e': 'exc', 'k': k, 'n': n, 'cb': 0, 'x': [], 'c': []})
+
+    def apply(self, em, k, n, o):
         if k in ('on', 'once'):
             f = em.on if k == 'on' else em.once
             if o['x']:
-                f(n, self.cb(o['cb']), {'c': o['x'][0]})
+                # (a bound method cannot be handed a context key named like its own receiver parameter)
+                keys = CTXKEYS if self.cbkind != 'method' else [k for k in CTXKEYS if k != 'self']
+                f(n, self.cb(o['cb']), {keys[(o['cb'] + o['x'][0]) % len(keys)]: o['x'][0]})
             else:
                 f(n, self.cb(o['cb']))
         elif k == 'off':
